@@ -29,6 +29,9 @@ pub enum Op {
     SeekEnd(i64),
     /// terminal: drain the rest with read_to_end / the iterator / read until EOS
     Drain(u8),
+    /// non-terminal `read_to_end` (sample and byte readers): must deliver exactly the rest, after
+    /// which the history goes on (further reads signal end of stream, seeks still work)
+    ReadToEnd,
 }
 
 pub struct TestFile {
@@ -137,6 +140,10 @@ pub fn random_history(rng: &mut Rng, f: &TestFile, seekable: bool, byte_reader: 
     let sizes = [1usize, 2, 3, f.channels, f.channels + 1, 7, 64, 255, 4096, 100000];
     let mut ops = vec![];
     for _ in 0..len {
+        if rng.chance(1, 25) {
+            ops.push(Op::ReadToEnd);
+            continue;
+        }
         let op = match rng.below(if seekable { 10 } else { 6 }) {
             0 | 1 => Op::Read(*rng.pick(&sizes)),
             2 => Op::Fill,
@@ -263,6 +270,29 @@ pub fn run_sample<R: Read + Seek>(src: R, f: &TestFile, ops: &[Op], seekable: bo
                         }
                         out.failed_seeks += 1;
                         cur = None;
+                    }
+                }
+            }
+            Op::ReadToEnd => {
+                let Some(c) = cur else { continue };
+                let mut v = vec![];
+                match rd.read_to_end(&mut v) {
+                    Ok(k) => {
+                        if k != v.len() || model.get(c..) != Some(&v[..]) {
+                            out.divergence = diverge(step, op, format!("read_to_end returned {k} / appended {} samples from position {c}, the model has {} left (or content differs)", v.len(), model.len().saturating_sub(c)));
+                            return out;
+                        }
+                        if !v.is_empty() && after_seek {
+                            out.successful_seek_then_data += 1;
+                            after_seek = false;
+                        }
+                        out.items_checked += v.len() as u64;
+                        out.reached_eos = true;
+                        cur = Some(model.len());
+                    }
+                    Err(e) => {
+                        out.divergence = diverge(step, op, format!("error {e:?} at model position {c}"));
+                        return out;
                     }
                 }
             }
@@ -436,6 +466,8 @@ pub fn run_channel<R: Read + Seek>(src: R, f: &TestFile, ops: &[Op], seekable: b
                 }
                 return out;
             }
+            // the per-channel reader has no read_to_end
+            Op::ReadToEnd => {}
         }
     }
     out
@@ -593,6 +625,29 @@ pub fn run_byte<R: Read + Seek, E: flac_codec::byteorder::Endianness>(src: R, f:
                 }
                 return out;
             }
+            Op::ReadToEnd => {
+                let Some(c) = cur else { continue };
+                let mut v = vec![];
+                match rd.read_to_end(&mut v) {
+                    Ok(k) => {
+                        if k != v.len() || model.get(c as usize..) != Some(&v[..]) {
+                            out.divergence = diverge(step, op, format!("read_to_end returned {k} / appended {} bytes from byte {c}, the model has {} left (or content differs)", v.len(), len - c.min(len)));
+                            return out;
+                        }
+                        if !v.is_empty() && after_seek {
+                            out.successful_seek_then_data += 1;
+                            after_seek = false;
+                        }
+                        out.items_checked += v.len() as u64;
+                        out.reached_eos = true;
+                        cur = Some(len);
+                    }
+                    Err(e) => {
+                        out.divergence = diverge(step, op, format!("error {e:?} at byte {c}"));
+                        return out;
+                    }
+                }
+            }
         }
     }
     out
@@ -609,6 +664,9 @@ pub enum Which {
 #[derive(Debug, Clone)]
 pub enum Source {
     Cursor,
+    /// the FLAC stream starts `n` bytes into the underlying reader (foreign data in front of
+    /// it, e.g. an ID3v2 tag the caller skipped); the reader is handed over positioned at `n`
+    Prefixed(usize),
     Chunks(Vec<usize>),
     Split(usize),
 }
@@ -627,6 +685,7 @@ fn parse_op(s: &str) -> Option<Op> {
         "SeekCur" => Op::SeekCur(arg.parse().ok()?),
         "SeekEnd" => Op::SeekEnd(arg.parse().ok()?),
         "Drain" => Op::Drain(arg.parse().ok()?),
+        "ReadToEnd" => Op::ReadToEnd,
         _ => return None,
     })
 }
@@ -636,6 +695,7 @@ pub fn run_history(rep: &mut Report, prop: &str, f: &TestFile, which: Which, see
     rep.count("reader", format!("{which:?}{}", if seekable { "/seekable" } else { "" }));
     rep.count("source", match source {
         Source::Cursor => "cursor",
+        Source::Prefixed(_) => "cursor-with-foreign-prefix",
         Source::Chunks(_) => "chunked",
         Source::Split(_) => "two-chunk-split",
     });
@@ -656,6 +716,14 @@ pub fn run_history(rep: &mut Report, prop: &str, f: &TestFile, which: Which, see
         }
         match source {
             Source::Cursor => go!(Cursor::new(bytes)),
+            Source::Prefixed(n) => {
+                // sync-free filler so that nothing in front of the stream looks like FLAC
+                let mut v: Vec<u8> = (0..*n).map(|i| b"ID3\x04junk-in-front-of-the-stream"[i % 31]).collect();
+                v.extend_from_slice(&bytes);
+                let mut c = Cursor::new(v);
+                c.set_position(*n as u64);
+                go!(c)
+            }
             Source::Chunks(plan) => go!(Chunked::new(bytes, plan.clone())),
             Source::Split(at) => {
                 // non-seekable two-chunk source
@@ -731,7 +799,8 @@ pub fn run_c06(ctx: &Ctx, rep: &mut Report) {
             for _ in 0..3 {
                 let n = rng.usize(5, 60);
                 let ops = random_history(&mut rng, &f, true, matches!(which, Which::ByteLE | Which::ByteBE), n);
-                run_history(rep, "C06", &f, which, true, &Source::Cursor, &ops);
+                let source = if rng.chance(1, 3) { Source::Prefixed(*rng.pick(&[1usize, 10, 128, 4099])) } else { Source::Cursor };
+                run_history(rep, "C06", &f, which, true, &source, &ops);
             }
             // a reader opened with new() must refuse to seek
             let ops = vec![Op::Read(5), Op::Seek(0), Op::Seek(1)];
@@ -814,6 +883,8 @@ fn replay(ctx: &Ctx, rep: &mut Report, prop: &str) {
     } else if src.starts_with("Chunks(") {
         let inner = src.trim_start_matches("Chunks([").trim_end_matches("])");
         Source::Chunks(inner.split(',').filter_map(|x| x.trim().parse().ok()).collect())
+    } else if src.starts_with("Prefixed(") {
+        Source::Prefixed(src.trim_start_matches("Prefixed(").trim_end_matches(')').parse().unwrap_or(0))
     } else {
         Source::Cursor
     };
